@@ -1,6 +1,6 @@
 (* C09_Progress.v — progress: a pending reset / reboot is honoured by a NEW epoch
    (not by terminating, not by stalling).  Pure computation on the model: for every
-   program point inside the stepping loop, with reset_ up, teardown_ down, the thread
+   program point of the loop (all but: blocked in the wait, and the exit path), with reset_ up, teardown_ down, the thread
    left alone with run_condition() = true enters initialization_step() again (run_ up)
    or blocks waiting for run (run_ down, i.e. after a reboot) within 17 own moves,
    starting at most one further filtering step on the way. *)
@@ -13,7 +13,8 @@ Fixpoint run_until_init (fuel : nat) (c : config) (k : nat) : config * nat :=
   | 0 => (c, k)
   | S f =>
       match c_pc c with
-      | PInitBody | PSleep => (c, k)
+      | PSleep => (c, k)
+      | PInit => match step c (MThread true) with Some c' => (c', S k) | None => (c, k) end
       | _ => match step c (MThread true) with
              | Some c' => run_until_init f c' (S k)
              | None => (c, k)
@@ -21,10 +22,12 @@ Fixpoint run_until_init (fuel : nat) (c : config) (k : nat) : config * nat :=
       end
   end.
 
+(* every program point from which the thread is still going round the loop: everything except
+   blocked in the wait (it needs a notify first) and the exit path *)
 Definition in_loop (p : pc) : bool :=
   match p with
-  | PC1a | PC1b | PC1c | PStep | PStepBody | PInc | PAfter | PC2a | PC2b | PC2c | PC2d => true
-  | _ => false
+  | PSleep | PFinal | PDone | PExited => false
+  | _ => true
   end.
 
 Definition honour_bound : nat := 17.
@@ -40,8 +43,9 @@ Lemma reset_progress c :
   exists c' k, run_until_init 20 c 0 = (c', k)
   /\ run_moves c (repeat (MThread true) k) = Some c' /\ k <= honour_bound
   /\ exists post, c_trace c' = post ++ c_trace c /\ count_steps post <= 1
-     /\ ((c_run c = true /\ c_pc c' = PInitBody /\ exists post', post = EInit :: post')
-         \/ (c_run c = false /\ c_pc c' = PSleep /\ c_woken c' = false /\ count_init_step post <= 1)).
+     /\ ((c_pc c' = PInitBody /\ exists post', post = EInit :: post')
+         \/ (c_run c = false /\ c_pc c' = PSleep /\ c_woken c' = false /\ count_init_step post <= 1))
+     /\ (c_run c = true -> c_pc c' = PInitBody).
 Proof.
   intros H1 H2 H3 L. destruct c as [p r s t n w d tr].
   cbv [c_rst c_td c_mid] in H1, H2, H3. subst s t d. cbv [c_pc] in L.
@@ -52,6 +56,7 @@ Proof.
   all: cbn [c_trace c_run c_pc c_woken].
   all: match goal with |- exists post, ?a = post ++ ?b /\ _ => let r := strip a b in exists r end.
   all: split; [reflexivity|]; split; [cbn; lia|].
+  all: split; [|intros X; try discriminate X; reflexivity].
   all: first [ left; repeat split; eauto; fail | right; repeat split; cbn; auto; lia ].
 Qed.
 
